@@ -108,8 +108,10 @@ def build_cases(tier):
     per_multi("CollocationPoints", "aerodynamics.collocation_points", "CollocationPoints")
     per_multi("ConvertVelocity", "aerodynamics.convert_velocity", "ConvertVelocity")
     per_multi("ConvertVelocity(rot)", "aerodynamics.convert_velocity", "ConvertVelocity", comp_kw={"rotational": True})
-    per_multi("EvalVelocities", "aerodynamics.eval_velocities", "EvalVelocities",
-              comp_kw={"eval_name": "ev", "num_eval_points": 2})
+    for cn, ss in SM.items():
+        npts = sum((x["mesh"].shape[0] - 1) * (x["mesh"].shape[1] - 1) for x in ss)
+        C.append(Case("EvalVelocities[%s]" % cn, F("aerodynamics.eval_velocities", "EvalVelocities", surfaces=ss,
+                                                   eval_name="ev", num_eval_points=npts)))
     per_surface("VLMGeometry", "aerodynamics.geometry", "VLMGeometry")
     per_surface("VLMGeometry(projected)", "aerodynamics.geometry", "VLMGeometry", surf_over={"S_ref_type": "projected"})
     per_multi("GetVectors", "aerodynamics.get_vectors", "GetVectors", comp_kw={"eval_name": "ev", "num_eval_points": 2})
@@ -125,6 +127,67 @@ def build_cases(tier):
     per_surface("TotalDrag", "aerodynamics.total_drag", "TotalDrag", names=["symL_2x2"])
     per_surface("TotalLift", "aerodynamics.total_lift", "TotalLift", names=["symL_2x2"])
     per_multi("VortexMesh", "aerodynamics.vortex_mesh", "VortexMesh")
+    per_multi("VortexMesh(ground)", "aerodynamics.vortex_mesh", "VortexMesh", names=["1symL_2x2", "1symR_2x3"],
+              surf_over={"groundplane": True})
+    for kl in ([0.05] if tier == "quick" else [0.05, 0.0, 1.0]):
+        per_surface("ViscousDrag(k_lam=%g)" % kl, "aerodynamics.viscous_drag", "ViscousDrag",
+                    names=["symL_2x2", "symL_2x3", "full_2x3"], surf_over={"k_lam": kl, "with_viscous": True},
+                    comp_kw={"with_viscous": True})
+    per_surface("ViscousDrag(off)", "aerodynamics.viscous_drag", "ViscousDrag", names=["symL_2x2"],
+                surf_over={"with_viscous": False}, comp_kw={"with_viscous": False})
+    per_surface("WaveDrag", "aerodynamics.wave_drag", "WaveDrag", names=["symL_2x2", "symL_2x3", "full_2x3"],
+                surf_over={"with_wave": True}, comp_kw={"with_wave": True})
+    per_surface("WaveDrag(off)", "aerodynamics.wave_drag", "WaveDrag", names=["symL_2x2"],
+                surf_over={"with_wave": False}, comp_kw={"with_wave": False})
+    per_multi("ScaleToPG(rot)", "aerodynamics.pg_scale", "ScaleToPrandtlGlauert", comp_kw={"rotational": True})
+    per_multi("ScaleToPG", "aerodynamics.pg_scale", "ScaleToPrandtlGlauert", names=["1symL_2x2"])
+    per_multi("ScaleFromPG", "aerodynamics.pg_scale", "ScaleFromPrandtlGlauert")
+    per_multi("RotateToWindFrame(rot)", "aerodynamics.pg_wind_rotation", "RotateToWindFrame", comp_kw={"rotational": True})
+    per_multi("RotateToWindFrame", "aerodynamics.pg_wind_rotation", "RotateToWindFrame", names=["1symL_2x2"])
+    per_multi("RotateFromWindFrame", "aerodynamics.pg_wind_rotation", "RotateFromWindFrame")
+
+    # ---- structures
+    def loads_big(ins):
+        from symoas.sym import bor
+        return [bor(gt(x, 1e-6), lt(x, -1e-6)) for x in ins["total_loads"].ravel()]
+
+    per_surface("ComputeNodes", "structures.compute_nodes", "ComputeNodes")
+    per_surface("CreateRHS", "structures.create_rhs", "CreateRHS", names=["symL_2x2", "full_2x3"], assumptions=loads_big)
+    per_surface("Disp", "structures.disp", "Disp", names=["symL_2x2", "full_2x3"])
+    per_surface("Energy", "structures.energy", "Energy", names=["symL_2x2", "full_2x3"])
+    per_surface("FailureExact", "structures.failure_exact", "FailureExact", names=["symL_2x3"])
+    per_surface("FailureKS", "structures.failure_ks", "FailureKS", names=["symL_2x2", "symL_2x3"])
+    per_surface("FEM", "structures.fem", "FEM", names=["symL_2x2", "full_2x3", "symL_2x3"])
+    per_surface("Length", "structures.length", "Length")
+    per_surface("LocalStiff", "structures.local_stiff", "LocalStiff", names=["symL_2x2", "full_2x3"])
+    per_surface("LocalStiffPermuted", "structures.local_stiff_permuted", "LocalStiffPermuted", names=["symL_2x2"])
+    per_surface("LocalStiffTransformed", "structures.local_stiff_transformed", "LocalStiffTransformed", names=["symL_2x2"])
+    per_surface("NonIntersectingThickness", "structures.non_intersecting_thickness", "NonIntersectingThickness", names=["symL_2x3"])
+    per_surface("SectionPropertiesTube", "structures.section_properties_tube", "SectionPropertiesTube", names=["symL_2x3"])
+    per_surface("StructuralCG", "structures.structural_cg", "StructuralCG")
+    per_surface("TotalLoads", "structures.total_loads", "TotalLoads", names=["symL_2x2"])
+    per_surface("TotalLoads(all)", "structures.total_loads", "TotalLoads", names=["symL_2x2"],
+                surf_over={"struct_weight_relief": True, "distributed_fuel_weight": True})
+    per_surface("Transform", "structures.transform", "Transform")
+    per_surface("VonMisesTube", "structures.vonmises_tube", "VonMisesTube", names=["symL_2x2", "full_2x3"])
+    per_surface("Weight", "structures.weight", "Weight")
+    per_surface("StructureWeightLoads", "structures.wing_weight_loads", "StructureWeightLoads")
+
+    # ---- transfer
+    per_surface("ComputeTransformationMatrix", "transfer.compute_transformation_matrix", "ComputeTransformationMatrix",
+                names=["symL_2x2", "full_2x3"])
+    per_surface("DisplacementTransfer", "transfer.displacement_transfer", "DisplacementTransfer")
+    per_surface("LoadTransfer", "transfer.load_transfer", "LoadTransfer")
+
+    # ---- functionals / common
+    per_multi("BreguetRange", "functionals.breguet_range", "BreguetRange", names=["1symL_2x2", "symL_2x2+full_2x3"])
+    per_multi("CenterOfGravity", "functionals.center_of_gravity", "CenterOfGravity", names=["1symL_2x2", "symL_2x2+full_2x3"])
+    per_multi("Equilibrium", "functionals.equilibrium", "Equilibrium", names=["1symL_2x2", "symL_2x2+full_2x3"])
+    per_multi("MomentCoefficient", "functionals.moment_coefficient", "MomentCoefficient")
+    per_multi("SumAreas", "functionals.sum_areas", "SumAreas", names=["symL_2x2+full_2x3"])
+    per_multi("TotalLiftDrag", "functionals.total_lift_drag", "TotalLiftDrag", names=["1symL_2x2", "symL_2x2+full_2x3"])
+    C.append(Case("ReynoldsComp", F("common.reynolds_comp", "ReynoldsComp")))
+    C.append(Case("MultiCD", F("integration.multipoint_comps", "MultiCD", n_points=3)))
     return C
 
 
@@ -174,10 +237,17 @@ def witness_env(case, out, ob):
 
 
 def replay_point(case, env, meta, tol=1e-6):
-    """Real code: analytic partial vs Richardson central difference at env."""
+    """Real code: analytic partial vs Richardson central difference at env.  When the symbolic
+    counterexample depends on the pre-state (stale Jacobian storage), the live Problem is first run and
+    linearised at another point, as an optimiser iteration would."""
     r0 = partials.CompRunner(case.factory(dict(case.cfg)), prerun=False)
     vals = partials.inputs_from_env(r0, env)
-    r, outs, J = partials.real_eval(case, vals, prob_r=r0)
+    history = None
+    if meta.get("stale"):
+        rng = np.random.default_rng(99)
+        hv = case.nominal(r0, rng) if case.nominal else partials.default_nominal(r0, rng)
+        history = [{n: np.array(hv.get(n, r0.defaults[n]), dtype=float).reshape(r0.shapes[n]) for n in r0.in_names}]
+    r, outs, J = partials.real_eval(case, vals, prob_r=r0, history=history)
     key = (meta["of"], meta["wrt"])
     if key not in J:
         return None, "pair %s not reported by check_partials" % (key,)
@@ -192,7 +262,8 @@ def replay_point(case, env, meta, tol=1e-6):
 
 def family_of(case, ob):
     base = case.name.split("[")[0]
-    return "%s partial d(%s)/d(%s) path{%s}" % (base, ob.meta["of"], ob.meta["wrt"], ob.meta["path"])
+    return "%s partial d(%s)/d(%s) path{%s}%s" % (base, ob.meta["of"], ob.meta["wrt"], ob.meta["path"],
+                                                  " stale-storage" if ob.meta.get("stale") else "")
 
 
 def process(case, out, rep, obs, replay_fn, family_fn, max_replays_per_family=2):
@@ -200,6 +271,9 @@ def process(case, out, rep, obs, replay_fn, family_fn, max_replays_per_family=2)
     for o in obs:
         if o.verdict != "candidate":
             continue
+        if o.kind == "ident" and o.lhs is not None:
+            from symoas.partials import _has_g_flags
+            o.meta["stale"] = bool(_has_g_flags([o.lhs])[o.lhs.nid])
         fam = family_fn(case, o)
         if tried.get(fam, 0) >= max_replays_per_family:
             continue
